@@ -117,7 +117,39 @@ func runC05(c *Ctx) {
 			return ok && strings.HasPrefix(p.Facts(ifi.Cond, true)[0], "lt((phi(")
 		}, CutSpec{
 			Nodes: func(in ssa.Instruction) bool { _, ok := in.(*ssa.MapUpdate); return ok },
-			Edges: OrEdge(FactEdge(evT("Noop"), evT("Bootstrapped"), "false(call:"+cacheT+".IsHandledBootstrapped(*)#1)"), func(e EdgeInfo) bool { return false }),
+			Edges: OrEdge(FactEdge(evT("Noop"), evT("Bootstrapped"), "false(call:"+cacheT+".IsHandledBootstrapped(*)#1)"), func(e EdgeInfo) bool {
+				// the not-yet-bootstrapped answer of the cache, also when it is remembered across events of one batch
+				if e.Taken || e.Cond == nil {
+					return false
+				}
+
+				leaves := PhiLeaves(e.Cond)
+				if len(leaves) == 0 {
+					return false
+				}
+
+				seenCall := false
+
+				for _, l := range leaves {
+					if k, isConst := l.(*ssa.Const); isConst && k.Value != nil {
+						continue
+					}
+
+					ex, isEx := l.(*ssa.Extract)
+					if !isEx || ex.Index != 1 {
+						return false
+					}
+
+					call, _ := ex.Tuple.(*ssa.Call)
+					if call == nil || p.CalleeName(call) != cacheT+".IsHandledBootstrapped" {
+						return false
+					}
+
+					seenCall = true
+				}
+
+				return seenCall
+			}),
 		})
 		c.Check(len(starts) == 1 && !bad, "R05.3", FuncName(f)+" :: every other event reaches m[key] = value", fpos(f), "yes", "an event can be dropped without notification: "+strings.Join(w, " "))
 		_ = loopHead
